@@ -423,7 +423,7 @@ var timeNames = map[string]bool{"Now": true, "Since": true, "Until": true, "Afte
 	"NewTicker": true, "AfterFunc": true, "Tick": true, "Timer": true, "Ticker": true}
 var ctxNames = map[string]bool{"WithCancel": true, "WithTimeout": true, "WithDeadline": true, "WithCancelCause": true, "Cause": true,
 	"AfterFunc": true, "WithTimeoutCause": true, "WithDeadlineCause": true, "WithoutCancel": true}
-var ctxSupported = map[string]bool{"WithCancel": true, "WithTimeout": true, "WithDeadline": true, "WithCancelCause": true, "Cause": true}
+var ctxSupported = map[string]bool{"WithCancel": true, "WithTimeout": true, "WithDeadline": true, "WithCancelCause": true, "Cause": true, "WithoutCancel": true}
 var syncNames = map[string]bool{"Mutex": true, "RWMutex": true, "WaitGroup": true, "Once": true, "Map": true, "Locker": true}
 
 func (r *pkgRewriter) vs(name string) ast.Expr {
